@@ -139,9 +139,9 @@ def run(R):
             n_iso += 1
             ko = F.origins(ua, c.args[1], depth=6)
             key_ok = any(o.kind == "call" and short(o.call.name).endswith("GroupKey as core::clone::Clone>::clone") for o in ko) and \
-                any(o.kind == "arg" and ua.local_name(o.arg) == "group_key" for o in ko)
+                any(o.kind == "arg" and ua.local_ty(o.arg).endswith("aggregate_execution::GroupKey") for o in ko)
             io = F.origins(ua, c.args[2], depth=6, through_calls=False)
-            idx_ok = bool(io) and all(o.kind == "arg" and ua.local_name(o.arg) == "aggregate_index" for o in io)
+            idx_ok = bool(io) and all(o.kind == "arg" and ua.local_ty(o.arg) == "usize" for o in io)
             k = "update_aggregate|%s" % sn.split("::")[-1]
             if key_ok and idx_ok:
                 R.ok("C04.isolation", k, "(group_key.clone(), aggregate_index)", c.loc(), nontrivial=(n_iso <= 3))
@@ -420,7 +420,7 @@ def run_c15(R):
     df = R.need_fn(AGG + "GroupAggregator::default")
     uses = []
     for c in df.calls:
-        if c.args and any(o.kind == "arg" and df.local_name(o.arg) == "column_value" for o in F.origins(df, c.args[0], depth=4)):
+        if c.args and any(o.kind == "arg" and df.local_ty(o.arg).endswith("model::Value") for o in F.origins(df, c.args[0], depth=4)):
             uses.append(short(c.name))
     if uses and all(u == V + "::default_value" for u in uses):
         R.ok("C15.lazy", "GroupAggregator::default", "the first value is used only through default_value() (its type)", df.loc())
